@@ -29,7 +29,8 @@ def strategy(tier):
         # anonymous events (a quarter of the cases): nothing but class, name and delay tells an
         # internal event from an external one
         return {'spec': spec, 'ops': ops, 'nouid': draw(st.integers(0, 3)) == 0,
-                'faults': draw(gen.faults(ops))}
+                'faults': draw(gen.faults(ops)),
+                'empty_event': draw(st.integers(0, 3)) == 0}
     return cases()
 
 
